@@ -255,6 +255,10 @@ def run(chk):
     validation_rule(chk, prog)
     run_k6(chk, prog, files, EXCEPTIONS, "K6")
     mask_rule(chk, prog)
+    from ..dangling import run_dangling
+    run_dangling(chk, prog, "K8-dangling",
+                 lambda src: src.startswith(("lib/tar/", "lib/xfrm/", "lib/fstree/", "lib/util/", "bin/tar2sqfs/", "bin/gensquashfs/"))
+                 and "/test/" not in src)
     from .c15 import codec_rule
     codec_rule(chk, load_program("tar2sqfs"))     # corrupted compressed input must not make the wrappers spin
     cleanup_rule(chk)
@@ -263,4 +267,5 @@ def run(chk):
     chk.floor("K1-validate", 6)
     chk.floor("K6", 30)
     chk.floor("K9-mask", 1)
+    chk.floor("K8-dangling", 8)
     chk.floor("K-codec", 4)
